@@ -18,6 +18,7 @@ def install(ext, schema):
     ext.class_ctors['engineio.packet.Packet'] = eio_packet_ctor
     cfg_uses_binary = z3.Const('cfg_uses_binary_events', B)
     ext.module_attrs[('classattr', 'socketio.packet.Packet', 'uses_binary_events')] = lambda eng, ctx: S(cfg_uses_binary)
+    ext.rec_classes['Packet'] = ('packet', 'Packet')
     m = ext.obj_methods
     m[('EioServer', 'generate_id')] = eio_generate_id
     m[('EioServer', 'send')] = eio_server_send
